@@ -40,7 +40,49 @@ def configs(tier, seed):
         hp = [1.25, 1.0, 2.0][i % 3]
         i += 1
         cfgs.append(dict(name='q%d/fc%d/low%s/hard%s' % (mq, fc, low, hp), maxq=mq, fc=fc, low=low, hardpct=hp))
+  # deep backlogs: thousands of datapoints queued while the destination is away, sent in small messages once it is back,
+  # with TIME_TO_DEFER_SENDING at its default and at 0 ("send as fast as possible")
+  for defer in (0.0001, 0):
+    cfgs.append(dict(name='q3000/fc1/low0.5/backlog/defer%s' % defer, maxq=3000, fc=True, low=0.5, hardpct=1.25, backlog=True, defer=defer))
   return cfgs
+
+
+def run_backlog(cfg, res):
+  from vlib import relayharness as rh
+  rl = rh.boot_relay({'RELAY_METHOD': 'constant', 'DESTINATIONS': '127.0.0.1:2004:a', 'MAX_QUEUE_SIZE': cfg['maxq'],
+                      'USE_FLOW_CONTROL': cfg['fc'], 'QUEUE_LOW_WATERMARK_PCT': cfg['low'], 'TIME_TO_DEFER_SENDING': cfg['defer'],
+                      'MAX_QUEUE_SIZE_HARD_PCT': cfg.get('hardpct', 1.25)})
+  ns = rl.ns
+  r = gen.rng(cfg['seed'], PROPERTY, cfg['name'])
+  for protocol in ('pickle', 'line'):
+    for batch, depth in ((1, 1200), (3, 2400), (7, 2800), (500, 2900)):
+      v = dict(batch=batch, dyn=False, retries=5, protocol=protocol, hw=None)
+      ns.transport_hw = apply_variant(ns.settings, v, 'constant', 1)
+      s = rh.Seq(ns, DESTS[:1])
+      quiet = s.check_invariants
+      s.check_invariants = lambda: None           # the accounting is evaluated at the marked points, not after each of thousands of events
+      for _ in range(depth):
+        s.apply('arrive', 0)
+      quiet()
+      s.apply('conn_made', 0)
+      quiet()
+      for _ in range(r.randint(0, 3)):
+        s.apply('arrive', 0)                       # a later arrival kicks the factory again
+      n = 0
+      while s.fake.getDelayedCalls() and n < 4 * depth:
+        s.apply('adv_next', 0)
+        n += 1
+      s.check_invariants = quiet
+      quiet()
+      s.report_call_errors()
+      f = s.fmap.get(DESTS[0])
+      res.count('backlog_sequences')
+      res.count('backlog_datapoints_written', s.counters.get('writes_decoded', 0))
+      if f is not None and len(f.queue) and not s.violations:
+        s.viol('backlog/not-drained', '%d datapoints still queued with the destination connected and no timer pending' % len(f.queue))
+      for sig, msg in s.violations[:3]:
+        res.violation(sig + '/backlog', '%s [defer=%s %r backlog of %d]' % (msg, cfg['defer'], v, depth), dict(cfg=cfg, variant=v, depth=depth))
+      res.case(repr((protocol, batch, depth)), nontrivial=True)
 
 
 def variants(r, tier):
@@ -97,6 +139,8 @@ def run_sequence(ns, dests, events, receivers=0):
 
 
 def run_config(cfg, res, relay_oracle=None, extra_weights=None):
+  if cfg.get('backlog'):
+    return run_backlog(cfg, res)
   from vlib import relayharness as rh
   rl = rh.boot_relay({'RELAY_METHOD': 'constant', 'DESTINATIONS': '127.0.0.1:2004:a', 'MAX_QUEUE_SIZE': cfg['maxq'],
                       'USE_FLOW_CONTROL': cfg['fc'], 'QUEUE_LOW_WATERMARK_PCT': cfg['low'], 'TIME_TO_DEFER_SENDING': 0.0001,
